@@ -113,6 +113,10 @@ def extract(path):
                 c = name_arg_class(n.value)
                 prev = local_name_class.get(n.targets[0].id)
                 local_name_class[n.targets[0].id] = c if prev in (None, c) else 'dynamic'
+        for dflt in list(fn.args.defaults) + [d for d in fn.args.kw_defaults if d is not None]:
+            if isinstance(dflt, (ast.Dict, ast.List, ast.Set, ast.Call, ast.ListComp, ast.DictComp, ast.SetComp)):
+                # a mutable default is shared by every call: state leaking between evaluations
+                caps.append(('mutable_default', where, ast.unparse(dflt)[:40], ''))
         local_src = {}
         for a in fn.args.args + fn.args.kwonlyargs + ([fn.args.vararg] if fn.args.vararg else []) + \
                 ([fn.args.kwarg] if fn.args.kwarg else []):
@@ -230,7 +234,7 @@ def render(d):
            'Definition caps : list (string * string * string * string) := [']
     seen, rows = set(), []
     for c in d['caps']:
-        key = (c[0], c[2], c[3]) if c[0] not in ('getattr', 'hasattr', 'setattr', 'delattr', 'unclassified', 'call_expr', 'mutator_call') else c
+        key = (c[0], c[2], c[3]) if c[0] not in ('getattr', 'hasattr', 'setattr', 'delattr', 'unclassified', 'call_expr', 'mutator_call', 'mutable_default') else c
         if key in seen:
             continue
         seen.add(key)
